@@ -36,6 +36,30 @@ type recAlloc struct {
 	// hook, when set, is called on entry of a release with the point name and the address (overlap tests
 	// hold a release there, as a slow allocator back end would)
 	hook func(point, addr string)
+	// relFault, when set, is asked before a release is carried out: an error is returned to the caller and the
+	// address stays held (a back end that refuses or times out); failed counts such refusals per address
+	relFault func(addr string) error
+	failed   map[string]int
+}
+
+// refuse reports the error of an armed release fault (and records it).
+func (a *recAlloc) refuse(kind, k string) error {
+	f := a.relFault
+	if f == nil {
+		return nil
+	}
+	err := f(k)
+	if err == nil {
+		return nil
+	}
+	a.mu.Lock()
+	if a.failed == nil {
+		a.failed = map[string]int{}
+	}
+	a.failed[k]++
+	a.log = append(a.log, kind+" "+k+" REFUSED: "+err.Error())
+	a.mu.Unlock()
+	return err
 }
 
 func newRecAlloc(n int) *recAlloc {
@@ -79,6 +103,9 @@ func (a *recAlloc) ReleaseIPv4(ctx context.Context, ip net.IP) error {
 	if h := a.hook; h != nil {
 		h("allocator-release-v4", ip.String())
 	}
+	if err := a.refuse("release4", ip.String()); err != nil {
+		return err
+	}
 	a.mu.Lock()
 	defer a.mu.Unlock()
 	k := ip.String()
@@ -98,6 +125,9 @@ func (a *recAlloc) ReleaseIPv4(ctx context.Context, ip net.IP) error {
 func (a *recAlloc) ReleaseIPv6(ctx context.Context, ip net.IP) error {
 	if h := a.hook; h != nil {
 		h("allocator-release-v6", ip.String())
+	}
+	if err := a.refuse("release6", ip.String()); err != nil {
+		return err
 	}
 	a.mu.Lock()
 	defer a.mu.Unlock()
